@@ -309,6 +309,43 @@ def large_view_histories(ctx):
                           {'area': area, 'state': gen.show_state(cs), 'wire_state': cs})
 
 
+def unrelated_registrations(ctx):
+    """equality and hashing of a state are not affected by calls that have nothing to do with it: a state holding instances of a user class is
+    copied, compared and hashed before and after ANOTHER user class -- which happens to carry the same class name (a second custom module,
+    a notebook cell run twice) -- is defined"""
+    import copy
+    from gym_gridverse.agent import Agent
+    from gym_gridverse.geometry import Orientation, Position
+    from gym_gridverse.grid import Grid
+    from gym_gridverse.grid_object import Color, Floor, GridObject, Wall, grid_object_registry as reg
+    from gym_gridverse.state import State
+    from gym_gridverse.utils.fast_copy import fast_copy
+    body = {'state_index': 0, 'color': Color.NONE, 'blocks_movement': False, 'blocks_vision': False, 'holdable': True,
+            'can_be_represented_in_state': classmethod(lambda cls: True), 'num_states': classmethod(lambda cls: 1), '__repr__': lambda self: 'VerifCoin()'}
+    n0 = len(reg.data)
+    try:
+        CoinA = type('VerifCoin', (GridObject,), dict(body, __module__='verif_coins_a'))
+        s = State(Grid([[Floor(), CoinA(), Wall()], [Floor(), Floor(), CoinA()]]), Agent(Position(1, 0), Orientation.F, CoinA()))
+        c0 = copy.deepcopy(s)
+        h0 = hash(s)
+        CoinB = type('VerifCoin', (GridObject,), dict(body, __module__='verif_coins_b'))       # the unrelated call
+        other = State(Grid([[CoinB(), Floor()]]), Agent(Position(0, 1), Orientation.F))
+        hash(other)
+        ctx.case(('unrelated-registration',), True, {'registered': reg.names()})
+        try:
+            c1 = copy.deepcopy(s)
+            ok = (c1 == s and c0 == s and s == c0 and hash(c1) == hash(s) == h0 and hash(c0) == h0 and CoinA() != CoinB() and s.grid[0, 1] == CoinA())
+            what = 'a copied state no longer equals / hashes like its original'
+        except Exception as e:  # noqa: BLE001
+            ok, what = False, f'comparing / hashing a state and its copies raises {type(e).__name__}: {e}'
+        if not ok:
+            ctx.violation(what + ' after an unrelated grid-object class of the same name was defined', {'history': 'define class VerifCoin; build, copy and hash a state holding its instances; define another class VerifCoin; copy, compare and hash again'})
+    finally:
+        del reg.data[n0:]
+        for cls in [c for c in list(reg.data) if c.__name__ == 'VerifCoin']:
+            reg.data.remove(cls)
+
+
 def run(ctx):
     ctx.notes['explanation'] = ('Level `other`: Props/C03.v proves the frame theorem for copy-then-mutate over an abstract heap (and == iff equal hash keys); that the '
                                 'CPython objects satisfy its hypotheses cannot be proved in Coq and is monitored here: arguments structurally unchanged, no shared '
@@ -320,6 +357,7 @@ def run(ctx):
     histories(ctx)
     aliasing_after_the_fact(ctx)
     large_view_histories(ctx)
+    unrelated_registrations(ctx)
 
 
 if __name__ == '__main__':
